@@ -41,6 +41,9 @@ Proof. exact history_from_any_state. Qed.
 Theorem C20_get_pixel_outside_none : forall d p, ~ in_display p -> get_pixel d p = Ok None.
 Proof. exact get_pixel_outside. Qed.
 
+Theorem C20_get_pixel_total : forall d p, exists c, get_pixel d p = Ok c.
+Proof. exact get_pixel_total. Qed.
+
 Theorem C20_draw_pixel_effect : forall d p c d',
   draw_pixel d p c = Ok d' ->
   allow_overdraw d' = allow_overdraw d /\ allow_oob d' = allow_oob d /\
@@ -174,6 +177,31 @@ Theorem C20_character_sets :
   all_mappings = [map_BinaryColor; map_Gray2; map_Gray4; map_Gray8; map_Rgb332; map_Rgb444; map_Rgb555; map_Bgr555;
                   map_Rgb565; map_Bgr565; map_Rgb888; map_Bgr888].
 Proof. exact character_sets. Qed.
+
+(* the default arm of color_to_char is '?' (where there is one), never ' ' and never the character of a colour; hence
+   what Debug prints identifies the colour: a character of the set is printed only for THE colour of that character *)
+Theorem C20_default_chars : Forall (fun m => m_default m = None \/ m_default m = Some 63) all_mappings.
+Proof. exact default_chars. Qed.
+
+Theorem C20_debug_char_identifies_colour : forall m v ch,
+  In m all_mappings -> color_to_char m v = Ok ch ->
+  ch <> SPACE /\ (In ch (charset m) -> In v (colset m) /\ char_to_color m ch = Ok v).
+Proof. exact debug_char_identifies_colour. Qed.
+
+Theorem C20_debug_chars_distinct : forall m v1 v2 ch,
+  In m all_mappings -> In v1 (colset m) -> color_to_char m v1 = Ok ch -> color_to_char m v2 = Ok ch -> v1 = v2.
+Proof. exact debug_chars_distinct. Qed.
+
+Theorem C20_rgb_colour_sets :
+  colset map_Rgb332 = [0; 224; 28; 3; 252; 227; 31; 255] /\
+  colset map_Rgb444 = [0; 3840; 240; 15; 4080; 3855; 255; 4095] /\
+  colset map_Rgb555 = [0; 31744; 992; 31; 32736; 31775; 1023; 32767] /\
+  colset map_Bgr555 = [0; 31; 992; 31744; 1023; 31775; 32736; 32767] /\
+  colset map_Rgb565 = [0; 63488; 2016; 31; 65504; 63519; 2047; 65535] /\
+  colset map_Bgr565 = [0; 31; 2016; 63488; 2047; 63519; 65504; 65535] /\
+  colset map_Rgb888 = [0; 16711680; 65280; 255; 16776960; 16711935; 65535; 16777215] /\
+  colset map_Bgr888 = [0; 255; 65280; 16711680; 65535; 16711935; 16776960; 16777215].
+Proof. exact rgb_colour_sets. Qed.
 
 (* Debug never panics: every raw value of every colour type has a character (its own or '?') *)
 Theorem C20_color_to_char_total : forall m v,
